@@ -183,3 +183,7 @@ def run(ctx):
     from .common import shared
     shared(ctx, lambda c: C17.stored_fields(c, only={'RangeStatement::<P>::init': ['commitments', 'seed_nonce'], 'ExtendedMask::assign': ['blindings'], 'CommitmentOpening::new': ['v', 'r']}), 'R-C17-3', 'R-C09-4')
     shared(ctx, lambda c: C17.copies_are_complete(c, only=('RangeStatement', 'ExtendedMask', 'CommitmentOpening', 'RangeWitness')), 'R-C17-3', 'R-C09-4')
+    # R-C09-5 (= R-C03-6): the mask of member i is computed from member i's own data: nothing but the gate's accumulators, the result
+    # vector and the weight RNG is carried from one member to the next, and a side cursor is advanced once per member
+    from . import C03
+    shared(ctx, C03.per_member_independence, 'R-C03-6', 'R-C09-5')
